@@ -1,0 +1,31 @@
+//go:build verif
+
+// Contracts for the deductive verifier in /verif (gocv); comments only.
+
+package comparer
+
+// Lexicographic order on byte slices by first difference (what bytes.Compare computes).
+
+//@ spec func lexlt_at(x []byte, y []byte, p int) bool = 0 <= p && p <= len(x) && p <= len(y) && (forall q int :: 0 <= q && q < p ==> x[q] == y[q]) && ((p == len(x) && p < len(y)) || (p < len(x) && p < len(y) && x[p] < y[p]))
+//@ spec func lexlt(x []byte, y []byte) bool = exists p int :: lexlt_at(x, y, p)
+
+//@ func (bytesComparer).Separator
+//@   props C15
+//@   safety on
+//@   requires len(dst) == 0
+//@   loop 1
+//@     invariant 0 <= i && i <= n && n <= len(a) && n <= len(b)
+//@     invariant forall q int :: 0 <= q && q < i ==> a[q] == b[q]
+//@     decreases n - i
+//@   ensures [sep-lower] isnil(result) || lexlt(old(a), result)
+//@   ensures [sep-upper] isnil(result) || lexlt(result, old(b))
+//@   ensures [sep-short] isnil(result) || len(result) <= len(a)
+
+//@ func (bytesComparer).Successor
+//@   props C15
+//@   safety on
+//@   requires len(dst) == 0
+//@   loop 1
+//@     invariant forall q int :: 0 <= q && q < rangeidx ==> b[q] == 255
+//@   ensures [succ-lower] isnil(result) || lexlt(old(b), result)
+//@   ensures [succ-short] isnil(result) || len(result) <= len(b)
